@@ -25,11 +25,15 @@ pub mod serde_json {
     }
     /// what `serde_json::to_string(&x)` produces for x: the JSON text
     pub trait JsonSer { spec fn json(&self) -> Seq<char>; }
+    /// a string serialises to its JSON string literal (quotes and escapes: uninterpreted)
+    pub uninterp spec fn json_str(s: Seq<char>) -> Seq<char>;
+    impl JsonSer for str { open spec fn json(&self) -> Seq<char> { json_str(self@) } }
+    impl JsonSer for String { open spec fn json(&self) -> Seq<char> { json_str(self@) } }
     /// what `serde_json::from_str::<Self>(text)` produces
     pub trait JsonDe: Sized { spec fn from_json(text: Seq<char>) -> Option<Self>; }
     /// ASSUMED: serialising a struct of strings/integers/Value/bytes cannot fail
     #[verifier::external_body]
-    pub fn to_string<T: JsonSer>(v: &T) -> (r: ::std::result::Result<String, Error>)
+    pub fn to_string<T: JsonSer + ?Sized>(v: &T) -> (r: ::std::result::Result<String, Error>)
         ensures r is Ok, r->Ok_0@ == v.json()
     { unimplemented!() }
     #[verifier::external_body]
